@@ -400,6 +400,75 @@ def rule_gf7_gf8(chk: Check):
                 "the grammars in this repository define `fstring` twice and the shipped parser follows the later definition")
 
 
+def rule_gf9_11(chk: Check):
+    """GF9: once a rule has registered clean-up statements, every `return` it emits goes through add_return (which emits them
+    first); the one direct emission is the compact `return self.seq_alts(...)` form taken before anything else is printed.
+    GF10: the cycle search of a left-recursive component keeps self-edges (a rule that calls itself first is its own cycle and
+    decides who the leader is).  GF11: how a grammar NAME leaf becomes a call — evaluated over the finite set of leaf kinds."""
+    import types
+    from .. import constfold
+    mod = parse_py("tasks/generator.py")
+    vr = _find_method(mod, "XonshParserGenerator", "visit_Rule")
+    chk.count("GF9-return-through-cleanup")
+    if vr is None:
+        raise AnalysisError("XonshParserGenerator.visit_Rule vanished")
+    direct = [n for n in ast.walk(vr) if isinstance(n, ast.Call) and norm_stmt(n.func) == "self.print" and n.args and
+              norm_stmt(n.args[0]).lstrip("f").strip("'\"").startswith("return")]
+    ok = all(norm_stmt(d.args[0]) in ("f'return {call}'",) for d in direct) and len(direct) <= 1
+    chk.require(ok, "GF9-return-through-cleanup", "tasks/generator.py:XonshParserGenerator.visit_Rule", f"tasks/generator.py:{vr.lineno}",
+                f"visit_Rule prints a `return` directly ({[norm_stmt(d.args[0]) for d in direct]}): statements registered for clean-up "
+                f"(restoring call_invalid_rules in *_without_invalid rules) are skipped on that path of the generated method")
+    scc = parse_py("pegen/sccutils.py")
+    fn = next((n for n in ast.walk(scc) if isinstance(n, ast.FunctionDef) and n.name == "find_cycles_in_scc"), None)
+    chk.count("GF10-self-edges")
+    ok = False
+    if fn is not None:
+        for n in ast.walk(fn):
+            if isinstance(n, ast.Assign) and norm_stmt(n.targets[0]) == "graph" and isinstance(n.value, ast.DictComp) and \
+                    isinstance(n.value.value, ast.SetComp):
+                conds = [norm_stmt(c) for g in n.value.value.generators for c in g.ifs]
+                ok = conds in (["dst in scc"], [])
+    chk.require(ok, "GF10-self-edges", "pegen/sccutils.py:find_cycles_in_scc", f"pegen/sccutils.py:{fn.lineno if fn else 0}",
+                "the graph handed to the cycle search must keep every edge inside the component, self-edges included: dropping them "
+                "changes which rules count as cycle-breaking leaders (`primary` would lose @memoize_left_rec to `func_macro_start`)")
+    # GF11
+    leaf = _find_method(mod, "XonshCallMakerVisitor", "visit_NameLeaf")
+    chk.count("GF11-name-leaf")
+    if leaf is None:
+        raise AnalysisError("XonshCallMakerVisitor.visit_NameLeaf vanished")
+
+    class FakeEnum(dict):
+        @property
+        def __members__(self):
+            return self
+
+    from .. import repo as _repo
+    members = sorted(_repo.token_enum_names())      # the tokenizer's Token enum, read from its definition
+    toks = [t for t in members if t not in ("SOFT_KEYWORD", "KEYWORD", "ANY_TOKEN")]
+    enum = FakeEnum({t: types.SimpleNamespace(name=t) for t in members})
+    gen = types.SimpleNamespace(tokens=set(members) | {"SOFT_KEYWORD", "KEYWORD", "ANY_TOKEN"}, tokens_enum=enum)
+    me = types.SimpleNamespace(gen=gen)
+    bad = []
+    for name in toks + ["SOFT_KEYWORD", "KEYWORD", "ANY_TOKEN", "expression", "star_targets", "t_primary"]:
+        if name in ("SOFT_KEYWORD", "KEYWORD", "NAME", "ANY_TOKEN"):
+            want = (name.lower(), f"self.{name.lower()}()")
+        elif name in toks:
+            want = ("_" + name.lower(), f"self.token('{name}')")
+        else:
+            want = (name, f"self.{name}()")
+        try:
+            got = constfold.eval_pure_function(leaf, {"self": me, "node": types.SimpleNamespace(value=name)},
+                                               data_attrs=("gen", "tokens", "tokens_enum", "name", "value", "__members__"))
+        except constfold.PureEvalError as e:
+            bad.append((name, f"not evaluable: {e}"))
+            break
+        if tuple(got) != want:
+            bad.append((name, tuple(got)))
+    chk.require(not bad, "GF11-name-leaf", "tasks/generator.py:XonshCallMakerVisitor.visit_NameLeaf", f"tasks/generator.py:{leaf.lineno}",
+                f"a NAME leaf must become self.name()/keyword()/soft_keyword()/any_token() for the four pseudo tokens, self.token('X') for "
+                f"a token kind and self.<rule>() for a rule; differs on {bad[:3]} — the regenerated parser would not be the shipped one")
+
+
 def run(chk: Check):
     rule_gf1(chk)
     rule_gf2(chk)
@@ -407,4 +476,5 @@ def run(chk: Check):
     rule_gf4_gf5(chk)
     rule_gf6(chk)
     rule_gf7_gf8(chk)
+    rule_gf9_11(chk)
     chk.floor("GF6-helper-identity", 2)
